@@ -111,6 +111,17 @@ def load_known():
     return known, fixed
 
 
+def known_match(known, pid_list, tid, r_name, r_desc):
+    """does a failed obligation correspond to a listed known finding?
+    the regex may match the obligation name or its description text"""
+    for k in known:
+        if k["target"] == tid and k["property"] in pid_list and (
+                re.fullmatch(k["obligation"], r_name) or
+                re.fullmatch(k["obligation"], r_desc or "")):
+            return k
+    return None
+
+
 def _limits():
     resource.setrlimit(resource.RLIMIT_AS, (MEM_LIMIT, MEM_LIMIT))
     os.setsid()
@@ -481,6 +492,20 @@ def run_variant(t, tier, neg=None, keep=False, sweep=None):
             out["id"] = tid
         gb, cmds = build_goto(t, wd, vdefs, mode_defs,
                               "main" if neg is None else "neg%d" % neg)
+        if neg is not None and t.get("backend", "sat") == "sat":
+            # a must-fail control only has to show ONE failing obligation
+            cmd = cbmc_cmd(t, gb, {}, ["--stop-on-fail"])
+            rc, so, se, _ = sh(cmd, t.get("timeout", 900))
+            if rc == -999:
+                raise Undecided("cbmc time-out after %ds" % t.get("timeout", 900))
+            if '"cProverStatus": "failure"' in so:
+                out["fired"] = "stop-on-fail"
+                return out
+            if '"cProverStatus": "success"' in so:
+                raise Undecided("must-fail control VNEG=%d verified: the "
+                                "target is vacuous or insensitive" % neg)
+            raise Undecided("cbmc gave no result for control VNEG=%d: %s" %
+                            (neg, (so + se)[-600:]))
         res = run_cbmc(t, gb, {}, t.get("timeout", 900), allow_unknown=True)
         out["cmds"] = [" ".join(c) for c in cmds] + [" ".join(res["cmd"])]
         out["solver"] = res["solver"]
@@ -530,6 +555,19 @@ def run_variant(t, tier, neg=None, keep=False, sweep=None):
                                                        uw[0].get("description")))
         failed = [r for r in failed if r not in uw]
         unknown = [r for r in nres if r["status"] not in ("SUCCESS", "FAILURE", "IGNORED")]
+        known, _ = load_known()
+        if failed and all(known_match(known, t["properties"], t["id"],
+                                      r["property"], r.get("description"))
+                          for r in failed) and not unknown:
+            # only listed known findings fail: no trace / witness search
+            out["status"] = "violation"
+            out["failures"] = [dict(name=oblig_name(tid, r), status=r["status"],
+                                    description=r.get("description", ""),
+                                    line=r.get("sourceLocation", {}).get("line"),
+                                    file=r.get("sourceLocation", {}).get("file"))
+                               for r in failed]
+            out["replay"] = dict(note="known finding, not replayed")
+            return out
         if failed or unknown:
             bad = failed or unknown
             bad = sorted(bad, key=lambda r: (
@@ -699,11 +737,10 @@ def check_property(pid, tier):
         elif r["status"] == "violation":
             rest = []
             for f in r["failures"]:
-                k = [k for k in known if k["property"] == pid and
-                     k["target"] == t["id"] and
-                     re.fullmatch(k["obligation"], f["name"].split("/", 1)[1])]
+                k = known_match(known, [pid], t["id"],
+                                f["name"].split("/", 1)[1], f.get("description"))
                 if k:
-                    knowns.append((k[0], f))
+                    knowns.append((k, f))
                 else:
                     rest.append(f)
             if rest:
